@@ -72,7 +72,10 @@ type Conn struct {
 	NWrites   int
 	ReadSizes []int
 	Peer      *Conn
-	timerAt   map[int64]bool
+	// AutoMark declares the end offset of every Write of this endpoint as
+	// an interesting offset for the peer's chunker.
+	AutoMark bool
+	timerAt  map[int64]bool
 }
 
 var mu sync.Mutex
@@ -242,6 +245,9 @@ func (c *Conn) put(p []byte, at time.Time) {
 	c.Out.Writes = append(c.Out.Writes, WriteRec{N: len(p), At: at, Off: c.Out.Total})
 	c.Out.Buf = append(c.Out.Buf, q...)
 	c.Out.Total += int64(len(p))
+	if c.AutoMark && len(p) > 0 {
+		c.Out.Marks = append(c.Out.Marks, c.Out.Total)
+	}
 }
 
 // Close implements net.Conn.
@@ -434,6 +440,9 @@ func ChunkEvery(c *Conn, avail, want int) []int {
 func ChunkMarks(c *Conn, avail, want int) []int {
 	out := []int{avail, 1}
 	for _, m := range c.In.Marks {
+		if m < c.In.Read {
+			continue
+		}
 		d := int(m - c.In.Read)
 		for _, k := range []int{d - 1, d, d + 1} {
 			if k >= 1 && k < avail {
